@@ -81,21 +81,23 @@ theorem wWideId_accepted : Accepted wWideId := by decide +kernel
 theorem wWideId_bad : (literalSites wWideId pkg).any (fun site => site.verdict == .bad) = true := by
   decide +kernel
 
-theorem wQuote_fact : Accepted wQuote ∧
-    (literalSites wQuote pkg).any (fun s => s.kind == "text.description" && s.verdict == .bad) = true := by
-  refine ⟨?_, ?_⟩ <;> decide +kernel
+/-- the former literal defect classes (a quote in a description, `minValue="08"`, `minValue="16777217"` of a
+    float type, the enumerator `'`): accepted, and every site is now a well-formed literal of the schema value -/
+theorem fixed_literal_witnesses :
+    (Accepted wQuote ∧ (literalSites wQuote pkg).all (fun s => s.verdict == .ok) = true) ∧
+    (Accepted wOctal ∧ (literalSites wOctal pkg).all (fun s => s.verdict == .ok) = true) ∧
+    (Accepted wFloatInexact ∧ (literalSites wFloatInexact pkg).all (fun s => s.verdict == .ok) = true) ∧
+    (Accepted wCharQuote ∧ (literalSites wCharQuote pkg).all (fun s => s.verdict == .ok) = true) := by
+  refine ⟨⟨?_, ?_⟩, ⟨?_, ?_⟩, ⟨?_, ?_⟩, ⟨?_, ?_⟩⟩ <;> decide +kernel
 
-theorem wOctal_fact : Accepted wOctal ∧
-    (literalSites wOctal pkg).any (fun s => s.kind == "min" && s.verdict == .bad) = true := by
-  refine ⟨?_, ?_⟩ <;> decide +kernel
+/-- text with every character `escape_literal` treats specially, trigraph included -/
+def wNasty : SchemaDef :=
+  mkSchema (stdTypes ++ [.type { tyDef "K" "char" with length := 8, presence := .constant, constValue := some "a\"b\\?" }])
+    [msg "M" 1 [fld "k" "K"]] "say \"hi\" ??/ back\\slash\ttab\nline 'q' \\"
 
-theorem wFloatInexact_fact : Accepted wFloatInexact ∧
-    (literalSites wFloatInexact pkg).any (fun s => s.kind == "min" && s.verdict == .bad) = true := by
-  refine ⟨?_, ?_⟩ <;> decide +kernel
-
-theorem wCharQuote_fact : Accepted wCharQuote ∧
-    (literalSites wCharQuote pkg).any (fun s => s.kind == "enumerator.char" && s.verdict == .bad) = true := by
-  refine ⟨?_, ?_⟩ <;> decide +kernel
+theorem wNasty_fact : Accepted wNasty ∧ (literalSites wNasty pkg).all (fun s => s.verdict == .ok) = true ∧
+    (literalSites wNasty pkg).any (fun s => s.kind == "const.string") = true := by
+  refine ⟨?_, ?_, ?_⟩ <;> decide +kernel
 
 theorem wGood_fact : Accepted wGood ∧ (literalSites wGood pkg).length > 60 ∧
     (literalSites wGood pkg).all (fun s => s.validated && s.plain && s.verdict == .ok) = true := by
